@@ -588,6 +588,7 @@ pub fn run_scenario(sc: &Value) -> Vec<Value> {
                         let view = entry_view(&src_bytes, idx, &pws, false);
                         let via_raw = op.get("via").and_then(|x| x.as_str()) == Some("raw");
                         let rn = rename.clone();
+                        let src_ops0 = crate::eexec::TOTAL_OPS.load(std::sync::atomic::Ordering::Relaxed);
                         let r = catch_unwind(AssertUnwindSafe(|| -> Result<(), String> {
                             // the source archive may sit on a reader that returns short reads (op.src_under = a Chunked plan)
                             let plan = op.get("src_under").cloned().unwrap_or(json!({}));
@@ -609,6 +610,8 @@ pub fn run_scenario(sc: &Value) -> Vec<Value> {
                         }
                         let mut m = base_event("RawCopy", &rj, &msg, &sink);
                         m.insert("src".into(), Value::Object(view));
+                        // I/O operations this call issued on the SOURCE archive's reader (fault enumeration over them: C11)
+                        m.insert("src_ops".into(), json!(crate::eexec::TOTAL_OPS.load(std::sync::atomic::Ordering::Relaxed) - src_ops0));
                         let has = rename.is_some();
                         m.insert("rename".into(), json!(has));
                         m.insert("name".into(), abs_name(rename.unwrap_or_default().as_bytes()));
